@@ -14,7 +14,7 @@ func c32GenParams(rng *rand.Rand) Parameters {
 	n := rng.IntN(4)
 	var p Parameters
 	for i := 0; i < n; i++ {
-		p = append(p, &AuthorizationToken{AliasType: AuthorizationTokenAliasTypeUseValue, TokenType: vmon.BoundaryU64(rng), TokenValue: vmon.RandBytes(rng, []int{0, 1, 10, 63, 64, 300}[rng.IntN(6)])})
+		p = append(p, &AuthorizationToken{AliasType: AuthorizationTokenAliasTypeUseValue, TokenType: vmon.BoundaryU64(rng), TokenValue: vmon.RandBytes(rng, c32TokenLen(rng))})
 	}
 	return p
 }
@@ -49,5 +49,22 @@ func TestVerifC32(t *testing.T) {
 			}
 		})
 	}
-	r.Finish("parameter lists (0..3 authorization tokens, boundary token types, values 0..300 bytes) round-tripped; hostile = mutated encodings with hostile counts (0, +1, 2^30, MaxInt, -1) under recover barrier + allocation meter. non-trivial = distinct encoding", "")
+	r.Finish("parameter lists (0..3 authorization tokens, boundary token types, value lengths around every size change of the length prefix: 0..70, 110..132, 16360..16400) round-tripped; hostile = mutated encodings with hostile counts (0, +1, 2^30, MaxInt, -1) under recover barrier + allocation meter. non-trivial = distinct encoding", "")
+}
+
+
+// c32TokenLen draws token value lengths around every place where a length prefix changes its size (the prefix covers the
+// value plus the alias and token types of 1..8 bytes each): 0..70, 110..132, 16360..16400, and a few others.
+func c32TokenLen(rng interface{ IntN(int) int }) int {
+	switch rng.IntN(5) {
+	case 0:
+		return rng.IntN(71)
+	case 1:
+		return 110 + rng.IntN(23)
+	case 2:
+		return 16360 + rng.IntN(41)
+	case 3:
+		return []int{0, 1, 10, 63, 64, 300}[rng.IntN(6)]
+	}
+	return 40 + rng.IntN(40)
 }
